@@ -10,13 +10,13 @@ def runAW (args : List String) : String :=
   | some cs => hex (AspifOut.write cs)
   | none => "bad-op"
 
-/-- `ar <C|I> <hex>` : the model reads the whole program in both modes (C01_modes: same calls). -/
+/-- `ar <C|I> <hex>` : `C` = `readProgram` (one go), `I` = `accept` + `parse(Incremental)` while `more()` (C01_modes: same result). -/
 def runAR (args : List String) : String :=
   match args with
-  | [_, h] =>
+  | [mode, h] =>
     match unhex h with
     | some bytes =>
-      let r := AspifIn.read bytes
+      let r := if mode == "I" then AspifIn.readInc bytes else AspifIn.read bytes
       joinSp (r.calls.map showCall ++ [match r.err with | none => "OK" | some l => s!"ERR:{l}:1"])
     | none => "bad-op"
   | _ => "bad-op"
